@@ -102,6 +102,92 @@ def gadget_sat(rep, tier, wd):
     return total_states, summary
 
 
+P_NATIVE = 0x73eda753299d7d483339d80809a1d80553bda402fffe5bfeffffffff00000001
+
+
+def nat(n):
+    out = []
+    while n:
+        out.append(n & 255)
+        n >>= 8
+    return out
+
+
+def map_half(rep, tier, wd, rng):
+    """Key-value map gadget: MerkleMap model-checked on a toy tree; its sessions replayed in-circuit and off-circuit."""
+    mc = vlib.run_tlc("MC_MerkleMap.tla", "MC_MerkleMap.cfg", "C04", workers=8, timeout=900)
+    if mc["violated"]:
+        raise vlib.ToolError(f"MerkleMap violates {mc['violated']} (model error)")
+    vlib.require_tlc_ok(mc, "MC_MerkleMap")
+    mut = vlib.run_tlc("MC_MerkleMap.tla", "MC_MerkleMap_mutant.cfg", "C04", workers=4, timeout=300)
+    if not mut["violated"]:
+        raise vlib.ToolError("vacuity: the map invariants hold under a colliding hash")
+    sessions = vlib.parse_replay_lines(mc["out"])
+    sessions.sort(key=lambda s: json.dumps(s, sort_keys=True))
+    keys = {0: 1, 1: 2, 5: P_NATIVE - 1, 6: 0}
+    vals = {0: 0, 1: 5, 2: P_NATIVE - 1}
+
+    def conc(s, init=()):
+        return {"init": [[nat(k), nat(v)] for k, v in init],
+                "ops": [{"op": o["op"], "k": nat(keys[o["k"]]), "v": nat(vals[o["v"]])} for o in s["ops"]]}
+
+    def has(s, pred):
+        return pred([(o["op"], o["k"], o["v"]) for o in s["ops"]])
+    classes = [
+        lambda o: o[0][0] == "insert" and o[1][0] == "insert" and o[0][1] == o[1][1] and o[0][2] != o[1][2] and o[2][0] == "get" and o[2][1] == o[0][1],  # overwrite, read back
+        lambda o: o[0][0] == "insert" and o[0][2] != 0 and o[1] == ("insert", o[0][1], 0) and o[2][0] == "get" and o[2][1] == o[0][1],                   # write default = removal
+        lambda o: all(x[0] == "get" for x in o),                                                                                                          # non-membership only
+        lambda o: o[0][0] == "insert" and o[1][0] == "insert" and {o[0][1], o[1][1]} == {0, 1} and o[2][0] == "get",                                      # sibling leaves (toy)
+        lambda o: o[0][0] == "insert" and o[0][2] != 0 and o[1][0] == "get" and o[1][1] != o[0][1] and o[2][0] == "get" and o[2][1] == o[0][1],          # absent then present
+    ]
+    picked = []
+    for c in classes:
+        m = [s for s in sessions if has(s, c)]
+        if m:
+            picked.append(rng.choice(m))
+    picked += rng.sample(sessions, 6 if tier == "quick" else 60)
+    scen = []
+    for i, s in enumerate(picked):
+        init = [] if i % 3 else [(7, 9), (keys[5], 3)]           # some sessions start from a populated map (one key shared with the session)
+        sc = conc(s, init)
+        if i < (3 if tier == "quick" else 12):
+            sc["tamper_at"] = [0, 1, 3, 40, 250, 500, 750, 999] if tier == "quick" else [0, 1, 2, 3, 5, 10, 40, 100, 250, 400, 500, 600, 750, 900, 999]
+            sc["faults"] = ["plus1", "zero"]
+        scen.append(sc)
+    chunks = [scen[i::vlib.NCPU] for i in range(vlib.NCPU)]
+    jobs = []
+    for i, ch in enumerate(chunks):
+        if ch:
+            sp = os.path.join(wd, f"mapscen_{i}.ndjson")
+            vlib.write_ndjson(sp, ch)
+            jobs.append(["c04m", sp, os.path.join(wd, f"maptrace_{i}.ndjson")])
+    vlib.run_vh_parallel(jobs, timeout=7200)
+    row_sets = [vlib.read_ndjson(j[2]) for j in jobs]
+    evs = [r for rows in row_sets for r in rows if r["ev"] == "Map"]
+    good, rejected, st = vlib.validate_many(row_sets, "Map_Trace.tla", "Map_Trace.cfg", "C04", "map", max_rejects=6, start_ev="Map")
+    for run_rows, line, e in rejected:
+        rep.violation({"op": "map_session", "status": e["status"], "tampered": e["tampered"]},
+                      f"map session init={len(e['init'])} ops={[(o['op']) for o in e['ops']]} tamper={e.get('tamper')} status={e['status']} "
+                      f"differs from MerkleMap ({e['detail'][:100]})",
+                      {"scenario": {"map": True, "init": e["init"], "ops": e["ops"],
+                                    "tamper_at": None, "faults": None}, "event": {k: e[k] for k in ("status", "tamper", "k", "nassign")}})
+    if not evs:
+        raise vlib.ToolError("vacuity: no map session recorded")
+    # binding demonstration: a recorded honest session whose exposed root is changed by one must be rejected
+    demo = next((json.loads(json.dumps(e)) for e in evs if not e["tampered"] and e["status"] == "sat" and e["ops"]), None)
+    if demo:
+        demo["exposed"][0][0] ^= 1
+        tp = os.path.join(wd, "map_binding_demo.ndjson")
+        vlib.write_ndjson(tp, [r for r in row_sets[0] if r["ev"] != "Map"] + [demo])
+        acc, _, _ = vlib.validate_trace(tp, "Map_Trace.tla", "Map_Trace.cfg", "C04")
+        if acc:
+            raise vlib.ToolError("binding demonstration failed: a corrupted root was accepted by Map_Trace")
+    return {"map_model_states": mc["distinct"], "map_sessions_enumerated": len(sessions), "map_sessions_run": len(scen),
+            "map_runs": len(evs), "map_tampered_runs": sum(1 for e in evs if e["tampered"]),
+            "map_tampered_but_satisfiable": sum(1 for e in evs if e["tampered"] and e["status"] == "sat"),
+            "map_runs_validated": len(good), "map_colliding_hash_breaks": mut["violated"]}
+
+
 def run(tier):
     rep = vlib.Report("C04", tier, "model_checking")
     wd = vlib.workdir("C04")
@@ -156,6 +242,9 @@ def run(tier):
     for e in ops:
         k = (e["op"], "tamper" if e.get("tamper") else "honest", e["status"])
         by[k] = by.get(k, 0) + 1
+    mstats = map_half(rep, tier, wd, rng)
+    log(f"[C04] maps: {mstats}")
+    rep.coverage.update(mstats)
     rep.coverage.update({
         "states": mc["distinct"] + gs_states, "transitions": mc["generated"] + gs_states,
         "gadgetsat": gs_summary,
@@ -194,6 +283,21 @@ def replay(path):
             log(f"VIOLATION property=C04 replay={path}")
             return 1
         log("replay: no violating assignment (violation not reproduced)")
+        return 0
+    if d["replay"]["scenario"].get("map"):
+        sc = {k: v for k, v in d["replay"]["scenario"].items() if v is not None}
+        t = d["replay"]["event"].get("tamper")
+        if t:
+            sc["tamper_at"], sc["faults"] = [max(0, t["i"] * 1000 // max(1, d["replay"]["event"]["nassign"]))], [t["fault"]]
+        sp = os.path.join(wd, "replay_mapscen.ndjson")
+        vlib.write_ndjson(sp, [sc])
+        tp = os.path.join(wd, "replay_maptrace.ndjson")
+        vlib.run_vh(["c04m", sp, tp])
+        good, rejected, _ = vlib.validate_runs(vlib.read_ndjson(tp), "Map_Trace.tla", "Map_Trace.cfg", "C04", "replay", start_ev="Map")
+        if rejected:
+            log(f"VIOLATION property=C04 replay={path}")
+            return 1
+        log("replay: accepted (violation not reproduced)")
         return 0
     sp = os.path.join(wd, "replay_scen.ndjson")
     sc = {k: v for k, v in d["replay"]["scenario"].items() if v is not None}
